@@ -474,109 +474,4 @@ Section LD.
     set_key "proof" (JArr (old ++ [JObj pr])) d.
 End LD.
 
-(* ---------- strict mode: validator.mapsHaveSameStructure ---------- *)
-(* compactValue *)
-Fixpoint compact_value (fuel : nat) (v : json) : json :=
-  match fuel with
-  | O => v
-  | S f =>
-    match v with
-    | JArr [x] => compact_value f x
-    | JObj [(k, x)] => if String.eqb k "id" then x else v
-    | _ => v
-    end
-  end.
-Fixpoint depth (j : json) : nat :=
-  match j with
-  | JArr l => S (fold_right (fun x n => Nat.max (depth x) n) 0%nat l)
-  | JObj m => S (fold_right (fun kv n => Nat.max (depth (snd kv)) n) 0%nat m)
-  | _ => 1%nat
-  end.
-Definition cval (v : json) : json := compact_value (depth v) v.
-
-(* compactMap / compactSlice (note: compactSlice does not descend into arrays nested directly in arrays) *)
-Fixpoint compact_map_j (fuel : nat) (j : json) {struct fuel} : json :=
-  match fuel with
-  | O => j
-  | S f =>
-    match j with
-    | JObj m =>
-        JObj (map (fun kv =>
-                     let v := cval (snd kv) in
-                     (fst kv, match v with
-                              | JArr l => JArr (map (fun x => let y := cval x in
-                                                              match y with JObj _ => compact_map_j f y | _ => y end) l)
-                              | JObj _ => compact_map_j f v
-                              | _ => v
-                              end))
-                  (remove_key "@context" m))
-    | _ => j
-    end
-  end.
-Definition compact_map (m : obj) : json := compact_map_j (S (depth (JObj m))) (JObj m).
-
-(* the comparison (every call starts with compactMap of both sides, as the Go function does).
-   AsIs: only object-valued members are descended into (arrays are skipped);
-   Fixed (after `fix: strict JSON-LD validation compares the objects inside arrays`): arrays must have equal
-   length and their object elements are compared position by position *)
-Fixpoint same_structure_c (v : variant) (fuel : nat) (a0 b0 : json) {struct fuel} : bool :=
-  match fuel with
-  | O => false
-  | S f =>
-    match a0, b0 with
-    | JObj ma0, JObj mb0 =>
-      let a := compact_map ma0 in let b := compact_map mb0 in
-      match a, b with
-      | JObj ma, JObj mb =>
-        if json_eqb a b then true
-        else if negb (Nat.eqb (List.length ma) (List.length mb)) then false
-        else forallb (fun kv =>
-               match lookup mb (fst kv) with
-               | None => true                         (* "the name of the map was mapped" *)
-               | Some v2 =>
-                 match snd kv with
-                 | JObj _ =>
-                     match v2 with
-                     | JObj _ => same_structure_c v f (snd kv) v2
-                     | _ => false
-                     end
-                 | JArr la =>
-                     match v with
-                     | AsIs => true
-                     | Fixed =>
-                       match v2 with
-                       | JArr lb =>
-                           Nat.eqb (List.length la) (List.length lb) &&
-                           (fix go (la lb : list json) : bool :=
-                              match la, lb with
-                              | x :: r, y :: t =>
-                                  match x with
-                                  | JObj _ => match y with
-                                              | JObj _ => same_structure_c v f x y
-                                              | _ => false
-                                              end
-                                  | _ => true
-                                  end && go r t
-                              | _, _ => true
-                              end) la lb
-                       | _ => false
-                       end
-                     end
-                 | _ => true
-                 end
-               end) ma
-      | _, _ => false
-      end
-    | _, _ => false
-    end
-  end.
-
-Definition same_structure (v : variant) (orig comp : obj) : bool :=
-  same_structure_c v (S (depth (JObj orig))) (JObj orig) (JObj comp).
-
-(* ValidateJSONLDMap in strict mode, compaction result given *)
-Definition strict_ok (v : variant) (orig : obj) (compacted : option json) : bool :=
-  match compacted with
-  | Some (JObj c) => same_structure v orig c
-  | _ => false
-  end.
+(* strict mode (validator.mapsHaveSameStructure): see C07/StrictModel.v *)
